@@ -9,6 +9,7 @@ from .. import core, harness, sched
 
 ID = "C20"
 LEVEL = "model_checking"
+EARLY_POOL_PATCH = True
 
 SERIAL = ["c1", "c2", "c3", "c22", "c6", "c3x1", "c2x2", "c3z", "c2x2z", "c3p", "x1", "x3", "x22", "x6", "x3x1", "x2x2", "x3p", "x2x2p"]
 POOLED = {
